@@ -3,6 +3,7 @@ import itertools, math, json, hashlib
 import numpy as np
 from harness.common import frac, fstr, parse_q, close_log, close_lin, qlog, Infra, np_seed
 from harness import spn as S
+from harness import histories as Hist
 from harness.build import build_from_table, table_with_py
 
 from deeprob.spn.structure.node import assign_ids
@@ -112,10 +113,12 @@ def near_edge(order, x):
     return False
 
 
-def check_net(ctx, root, ncols, rs, cap, tag):
-    """returns number of rows compared; records violations"""
+def check_net(ctx, root, ncols, rs, cap, tag, hist=None):
+    """returns number of rows compared; records violations. `hist` = dict(table0, steps): the recorded session history that
+    produced `root` from the circuit of table0 (goes into every replay: a stale cache is not visible in a parameter table)"""
     floor = iso_floor()
     table, order, index, acyclic = S.export_net(root)
+    H = dict(history=hist) if hist else {}
     dom = S.domain_of(order)
     X, exhaustive = complete_rows(order, list(root.scope), ncols, rs, cap, floor)
     try:
@@ -123,7 +126,7 @@ def check_net(ctx, root, ncols, rs, cap, tag):
         l_root, ls = likelihood(root, X, return_results=True)
     except Exception as ex:
         ctx.violation('c01-inference-raises', f'inference raised {type(ex).__name__}: {ex} on a valid circuit',
-                      replay=dict(kind='c01', table=table_with_py(table, order), ncols=ncols, rows=X.tolist()))
+                      replay=dict(kind='c01', table=table_with_py(table, order), ncols=ncols, rows=X.tolist(), **H))
         return 0
     drv = ctx.get_driver() if ctx.driver_ok else None
     nontriv = any(e['kind'] in ('sum', 'prod') for e in table)
@@ -141,7 +144,7 @@ def check_net(ctx, root, ncols, rs, cap, tag):
         chk = drv.ask(dict(op='check'))
         if chk != 'accept':
             ctx.violation('c01-model-rejects-valid', f'model validation says {chk} for a circuit the generator built as valid',
-                          replay=dict(kind='c01', table=table_with_py(table, order), ncols=ncols, rows=[]), found_input=False)
+                          replay=dict(kind='c01', table=table_with_py(table, order), ncols=ncols, rows=[], **H), found_input=False)
             return 0
     nvars = len(dom)
     bad = None
@@ -157,7 +160,11 @@ def check_net(ctx, root, ncols, rs, cap, tag):
                                   row=x.tolist(), node=i)
         if drv is None:
             continue
-        row, dens = S.row_payload(order, x, nvars, floor)
+        try:
+            row, dens = S.row_payload(order, x, nvars, floor)
+        except S.ExtremeDensity:
+            ctx.count('rows_with_log_density_below_-20000_not_compared')   # e.g. a Gaussian whose sigma EM clamped to 1e-5
+            continue
         vals = [parse_q(t) for t in drv.ask(dict(op='eval', row=row, dens=dens)).split()]
         skip = near_edge(order, x)
         if skip:
@@ -186,9 +193,11 @@ def check_net(ctx, root, ncols, rs, cap, tag):
             if abs(tot - 1.0) > 1e-4:
                 bad = dict(fp='c01-impl-mass', what=f'exp(log_likelihood) sums to {tot} over the whole discrete domain', row=None, node=None)
     if bad:
+        if hist:
+            bad['what'] += f' [after the session history {Hist.brief(hist["steps"])}]'
         ctx.violation(bad['fp'], bad['what'],
                       replay=dict(kind='c01', table=table_with_py(table, order), ncols=ncols,
-                                  rows=[bad['row']] if bad['row'] is not None else X.tolist(), node=bad['node']))
+                                  rows=[bad['row']] if bad['row'] is not None else X.tolist(), node=bad['node'], **H))
     return len(X)
 
 
@@ -222,7 +231,30 @@ def run(ctx):
     run_corpus(ctx)
     for k in range(n_nets):
         root, ncols, rs = gen_case(ctx, k)
-        check_net(ctx, root, ncols, rs, cap, f'net{k}')
+        hist = None
+        if k % 3 == 1:
+            # a circuit whose leaves all support EM (one category set per variable, Chow-Liu leaves allowed), for the history stream
+            nv = int(rs.randint(2, 5))
+            ncols = nv + int(rs.randint(0, 2))
+            scope = sorted(int(v) for v in rs.choice(ncols, nv, replace=False))
+            root = S.rand_spn(rs, scope, depth=int(rs.randint(1, 4)), kinds=[('bern',), ('bern', 'cat'), ('bern', 'gauss'), ('bern', 'catl', 'gauss')][(k // 3) % 4],
+                              share=float(rs.choice([0.0, 0.4])), clt=True, same_categories={}, no_repeat=True)
+            if getattr(root, 'children', None):
+                assign_ids(root)
+            else:
+                root.id = 0
+        if k % 3 == 1 and getattr(root, 'children', None):
+            # the same query after a recorded session history (earlier queries, EM, save/load, prune, copies): still a circuit
+            table0, order0, _, _ = S.export_net(root)
+            t0 = table_with_py(table0, order0)
+            root, steps = Hist.apply_history(rs, root, ncols, int(rs.randint(1, 4)), count=ctx.count)
+            if getattr(root, 'children', None):
+                assign_ids(root)
+            else:
+                root.id = 0
+            hist = dict(table0=t0, steps=steps)
+            ctx.count('circuits-queried-after-a-history')
+        check_net(ctx, root, ncols, rs, cap, f'net{k}', hist)
         if ctx.n_new() >= 3:
             break
     ctx.notes.append('total mass is not enumerated by the model: it is evalNet with nothing observed, equal to the enumerated '
@@ -235,6 +267,24 @@ def replay(rep):
     X = np.array(r['rows'], dtype=np.float32)
     if X.size == 0:
         return True
+    if r.get('history'):
+        root, _ = build_from_table(r['history']['table0'])
+        root = Hist.replay_history(root, r['history']['steps'])
+        if getattr(root, 'children', None):
+            assign_ids(root)
+        else:
+            root.id = 0
+        order = S.export_net(root)[1]
+        # the parameter-based reference (plain recursion over the objects' parameters) against the library's answer
+        ll = np.asarray(log_likelihood(root, X)).reshape(-1)
+        okh = True
+        for rr in range(len(X)):
+            ref = S.ref_value(root, X[rr].astype(np.float64))
+            if abs(math.exp(float(ll[rr])) - ref) > 1e-6 + 2e-4 * ref:
+                print(f'row {X[rr].tolist()}: exp(log_likelihood) = {math.exp(float(ll[rr]))} but the circuit over its own parameters has value {ref}')
+                okh = False
+        if not okh:
+            return False
     ll, lls = log_likelihood(root, X, return_results=True)
     l, ls = likelihood(root, X, return_results=True)
     ok = True
